@@ -700,8 +700,8 @@ def c2s(ctx):
         # the events of that history up to the rejected line
         start = max(i for i in range(rj['line']) if json.loads(lines[i]).get('op') in ('begin', 'setup'))
         hist = [json.loads(x) for x in lines[start:rj['line']]]
-        hist = [{k: v for k, v in h.items() if k != 'res' or h is hist[-1]} for h in hist][-15:]
-        case = {'kind': 'c2s', 'event': ev, 'history': hist, 'spec': rj}
+        hist = [{k: v for k, v in h.items() if k != 'res' or h is hist[-1]} for h in hist]
+        case = {'kind': 'c2s', 'event': ev, 'history': hist, 'spec': rj, 'setup': setup}
         if ev['op'] == 'fold':
             ctx.violation('c2s:fold', 'folded and per-row values differ', case, 'C2S', ev['perrow'], ev['folded'])
         elif not ev.get('same', True):
@@ -767,7 +767,44 @@ def replay(ctx, rep):
             print('replay:', h['op'], sess.stmts[h['s'] - 1].text, [case['setup']['params'][h['s'] - 1][i - 1] for i in h['ps']])
         print('replay:', 'MISMATCH reproduced' if after > before else 'no mismatch')
         return 1 if after > before else 0
+    if case.get('kind') == 'c2s' and case['event']['op'] in ('execute', 'text', 'many'):
+        # re-run the recorded history on one connection, then the last call alone on a fresh one: the two must agree
+        def last_call(sess, events):
+            objs, out = {}, None
+            nmod = len(sess.stmts)
+            for ev in events:
+                s = ev.get('s', 0) - 1
+                if ev['op'] == 'parse':
+                    objs[s] = sess.stmts[s].fresh() if s < nmod else copy.deepcopy(sess.ledger_stmts[s - nmod][1])
+                elif ev['op'] in ('execute', 'text', 'many'):
+                    ps = [i - 1 for i in ev['ps']]
+                    if s < nmod:
+                        out = bm.project(sess.call(objs, ev['op'], s, ps), sess.st)
+                    else:
+                        text, tree, plist = sess.ledger_stmts[s - nmod]
+                        try:
+                            if ev['op'] == 'execute':
+                                sess.cursor.execute(objs[s], plist[ps[0]])
+                            elif ev['op'] == 'text':
+                                sess.cursor.execute(text, plist[ps[0]])
+                            else:
+                                sess.cursor.executemany(text, [plist[i] for i in ps])
+                            out = {'ok': True, 'hash': digest(sess.cursor.description, sess.cursor.fetchall())}
+                        except Exception as ex:  # noqa
+                            out = {'ok': False, 'exc': type(ex).__name__, 'msg': str(ex)[:120]}
+            return out
+        events = case['history']
+        a = last_call(Session(ctx, case['setup']), events)
+        last = dict(events[-1], op='text' if events[-1]['op'] == 'execute' else events[-1]['op'])
+        b = last_call(Session(ctx, case['setup']), [last])
+        a.pop('msg', None), b.pop('msg', None)
+        print('replay: after the history :', json.dumps(a)[:300])
+        print('replay: alone, fresh      :', json.dumps(b)[:300])
+        bad = a != b or (bool(case['spec'].get('matches')) and not a['ok'])     # matching parameters never fail
+        print('replay:', 'MISMATCH reproduced' if bad else 'no mismatch')
+        return 1 if bad else 0
     if case.get('kind') in ('richfold', 'impurefold'):
+
         import beanquery
         from harness import tables as ht  # noqa
         print('replay: folded  ', case.get('folded_text') or case.get('a'))
